@@ -64,7 +64,8 @@ def parse_header(path):
                 enums.append(e.split('=')[0].strip())
     protos = {}
     flat = re.sub(r'\s+', ' ', nopp)
-    for m in re.finditer(r'([A-Za-z_][\w \*]*?[\w\*])\s+\*?\s*(\w+)\s*\(([^(){};]*)\)\s*;', flat):
+    # a prototype may carry trailing attributes or attribute macros before the semicolon
+    for m in re.finditer(r'([A-Za-z_][\w \*]*?[\w\*])\s+\*?\s*(\w+)\s*\(([^(){};]*)\)([^;{}]*);', flat):
         ret, name, params = m.group(1).strip(), m.group(2), m.group(3).strip()
         # 'uint8_t* Avtp_Can_GetPayload(' -> the star may sit on either side
         full = flat[m.start():m.end()]
@@ -376,6 +377,16 @@ uint64_t w%(N)s_lget_at(uint8_t* pdu, uint64_t id, uint8_t* resultloc) {
     with open(os.path.join(out, 'rows_gen.c'), 'w') as f:
         f.write('\n'.join(c) + '\n')
 
+    # the dedicated accessors of the pinned public API: each must still be found (and parsed) in the headers
+    accf = os.path.join(os.path.dirname(SPEC), 'accessors.json')
+    if os.path.exists(accf):
+        found = set()
+        for fm, fl_meta, *_ in fmts_meta:
+            for f, hasg, hass, gn, sn in fl_meta:
+                found.update([gn, sn])
+        for a in json.load(open(accf)):
+            if a not in found:
+                problems.append('dedicated accessor %s of the public API is no longer declared (or its prototype can no longer be parsed)' % a)
     with open(os.path.join(out, 'gen_report.json'), 'w') as f:
         json.dump({'problems': problems, 'uncovered': sorted(set(uncovered)),
                    'formats': len(fmts_meta), 'fields': sum(len(x[1]) for x in fmts_meta)}, f, indent=1)
